@@ -10,9 +10,9 @@
    to hold: LeftScalarMult s > 0, RightScalarMult s <> 0, RightVectorMult entries <> 0,
    QuadraticPerturb a >= 0, Huber gamma > 0, QuadraticForm scaling > 0, vectors of length n.
    [sqrtf] is np.sqrt: any function with the defining property of the square root. *)
-From Coq Require Import Reals List Bool.
+From Coq Require Import Reals Qreals List Bool.
 From Verif Require Import Base.Num Base.Vec Base.VecR C08.Model C08.VecLemmas C08.Rules C08.Proofs
-  C08.ProxRules C08.Moreau C08.GradEq C08.Biconj C08.KL.
+  C08.ProxRules C08.Moreau C08.GradEq C08.Biconj C08.KL C08.ConjTables C08.Transfer C08.Group.
 Import ListNotations.
 Local Open Scope R_scope.
 
@@ -28,7 +28,7 @@ Local Open Scope R_scope.
 Theorem fenchel_young :
   forall (sqrtf : R -> R), (forall a, 0 <= a -> 0 <= sqrtf a /\ sqrtf a * sqrtf a = a) ->
   forall (e e' : fxR) (n : nat) (w x y : list R) (vx vy : extR),
-  wf n e -> wpos w -> length w = n -> length x = n -> length y = n ->
+  wf n e -> wpos w -> wadm w e -> length w = n -> length x = n -> length y = n ->
   value sqrtf 0 e w x = Ok vx -> cconj w e = Ok e' -> value sqrtf 0 e' w y = Ok vy ->
   fy vx vy (wdot w x y).
 Proof. exact fenchel_young_tree. Qed.
@@ -74,7 +74,7 @@ Proof. exact D_example_proof. Qed.
 Theorem fenchel_young_equality_at_gradient :
   forall (sqrtf : R -> R), (forall a, 0 <= a -> 0 <= sqrtf a /\ sqrtf a * sqrtf a = a) ->
   forall (e e' : fxR) (n : nat) (w x g : list R) (vx vg : extR),
-  wf n e -> wpos w -> length w = n -> length x = n ->
+  wf n e -> wpos w -> wadm w e -> length w = n -> length x = n ->
   grad sqrtf e w x = Ok g -> value sqrtf 0 e w x = Ok vx ->
   cconj w e = Ok e' -> value sqrtf 0 e' w g = Ok vg ->
   eadd vx vg = EFin (wdot w x g).
@@ -125,3 +125,44 @@ Theorem kl_equality_at_gradient : forall g x : R, 0 < g -> 0 < x ->
   kl1 g x + klc1 g (1 - g / x) = x * (1 - g / x) /\ kce1 g x + kcec1 g (ln (x / g)) = x * ln (x / g).
 Proof. exact kl_equality_at_gradient_proof. Qed.
 Print Assumptions kl_fenchel_young.
+
+(* TIE  The conjugation rules are REGENERATED from the source on every run (translate/conjugates.py ->
+   Gen/Conjugates.v: the body of every `convex_conj` property of functional.py and
+   default_functionals.py and the case table of conj_exponent).  [interp w e] (C08/ConjTables.v) is what
+   the generated body of e's class denotes given the conjugates of e's operands; the hand-written
+   [cconj] used by all theorems above satisfies every generated equation, at both carriers.  A changed
+   exponent, 1/4, gamma/2, sign, reciprocal, class name, branch condition or evaluation order in the
+   source therefore breaks this proof.  ([constructible] only excludes QuadraticForm() without operator
+   and vector, which the constructor rejects.) *)
+Theorem cconj_is_generated_R : forall (w : list R) (e : fxR),
+  constructible e -> cconj w e = interp w e.
+Proof. exact cconj_generated_R. Qed.
+Theorem cconj_is_generated_Q : forall (w : list QArith_base.Q) (e : @fexpr QArith_base.Q),
+  constructible e -> cconj w e = interp w e.
+Proof. exact cconj_generated_Q. Qed.
+Print Assumptions cconj_is_generated_Q.
+
+(* TRANSFER  The model run at Q by the correspondence shards is the rational restriction of the model
+   the theorems are about: Q2R commutes with [value] on every tree in which no square root is taken
+   (no L2Norm / IndicatorLpUnitBall(2) / IndicatorZero in value position; any sq, sr may be plugged in)
+   and with [cconj] on every tree whose RightVectorMult multipliers have nonzero entries. *)
+Theorem value_Q_is_restriction_of_R : forall (sq : QArith_base.Q -> QArith_base.Q) (sr : R -> R) (e : fxQ),
+  sqrt_free e = true -> forall w x,
+  rmap eR (value sq nzero e w x) = value sr nzero (fR e) (map Q2R w) (map Q2R x).
+Proof. exact value_transfer. Qed.
+Theorem cconj_Q_is_restriction_of_R : forall (e : fxQ), vec_nz e -> forall w,
+  rmap fR (cconj w e) = cconj (map Q2R w) (fR e).
+Proof. exact cconj_transfer. Qed.
+Print Assumptions cconj_Q_is_restriction_of_R.
+
+(* GROUP PAIR  GroupL1Norm(S, 2) <-> IndicatorGroupL1UnitBall(S, 2) on a power space S = X^d (X with m points;
+   flat vectors of length d*m) enters the trees as the abstract pair [FPair b (group_pair sqrtf d m)]; all
+   theorems above hold for trees containing it because the pair is consistent for ALL d >= 1 and m:
+   lengths preserved, Moreau identity of proximal_l1_l2 / proximal_convex_conj_l1_l2 for every weighting,
+   Fenchel-Young for every positive weighting that repeats the base weights on the d components
+   (pointwise Cauchy-Schwarz).  The pair's gradient is not modelled. *)
+Theorem group_pair_consistent :
+  forall (sqrtf : R -> R), (forall a, 0 <= a -> 0 <= sqrtf a /\ sqrtf a * sqrtf a = a) ->
+  forall m d : nat, (1 <= d)%nat -> pair_ok (d * m) (group_pair sqrtf d m).
+Proof. exact group_pair_ok. Qed.
+Print Assumptions group_pair_consistent.
